@@ -225,6 +225,10 @@ async fn control_service(app: Rc<App>, msg: Control<AppErr>) -> Result<Option<co
     match msg {
         Control::WrBackpressure(w) => {
             app.push(Ev::WrBackpressure(w.enabled()));
+            // a control service that takes its time over the notification (the sink's state must not depend on it)
+            if w.enabled() && app.hold_backpressure.get() {
+                app.wait_backpressure().await;
+            }
             let res = if app.fail_on_backpressure.get() && w.enabled() {
                 Err(AppErr { tag: "control-backpressure", ack: None })
             } else {
